@@ -23,6 +23,7 @@ K_F17 = "F17:tree-merge-flagged-particle-lingers"
 K_F18 = "F18:linetree-prune-omits-partner-radius"
 K_LTNEG = "C13-N3:linetree-prune-negative-dt"
 K_F4 = "F4:sorted-removal-with-tree"
+K_N4 = "C13-N4:keep-sorted-with-tree-merge-duplicates-mass"
 K_F19 = "F19:merge-two-massless-nan"
 K_F19H = "F19:hardsphere-two-massless-nan"
 
@@ -43,6 +44,7 @@ REQUIRED_DIMS = ["N_active<N", "testparticle_type=1", "massless_particles", "var
                  "file_restore_midrun", "user_add_remove_midrun", "free_particle_ap", "keep_sorted", "tree_gravity_direct_search", "hybrid_forced_keep_sorted", "radii_after_add_x_ghost_boxes_x_direct",
                  "dt!=dt_last_done_x_line_searches", "pass_through_refined_cells"]
 VARIANT = ["0"] * 7      # RmVariant flags (5) + purge-flagged-at-end-of-search, determined in run()
+KSFALLBACK = [False]     # fixes/C13-keep-sorted-with-tree-fallback.diff applied? (probed in run())
 PURGE = [False]          # fixes/C13-tree-merge-remove-at-boundary.diff applied? (probed in run())
 RESFLAGS = {"merge": "0", "hs": "0"}     # massless guards of the built-in resolvers (probed in run())
 VARIANT_NAMES = ["rangeFirst", "lastResetsNActive", "lastDeletesTree", "sortedTreeErrFirst", "unsortedClampNActive"]
@@ -829,6 +831,16 @@ def probe_variant(W):
         W.clib.reb_simulation_update_tree.restype = None
         W.clib.reb_simulation_update_tree(ctypes.byref(sim))
     f["treeUpdateClampsNActive"] = int(sim.N == 2 and sim.N_active == 2)
+    # keep_sorted together with a tree: does reb_collision_search fall back to the unsorted (flag) removal?
+    sim = mk(0, tree=True)
+    sim.add(m=1.0, r=1.0, x=-0.5, vx=1.0, hash=1)
+    sim.add(m=1.0, r=1.0, x=0.5, vx=-1.0, hash=2)
+    sim.add(m=1.0, r=0.1, x=4.0, hash=3)
+    sim.t = 1.0
+    sim.collision_resolve = "merge"
+    sim.collision_resolve_keep_sorted = 1
+    W.clib.reb_collision_search(ctypes.byref(sim))
+    f["keepSortedTreeFallback"] = int(sim.N == 2 or any(sim._particles[i].y != sim._particles[i].y for i in range(sim.N)))
     return f
 
 
@@ -841,7 +853,8 @@ def f_line(spec, mode, state, tab, tree, res, dtl, t, ninner, given=(), nvar=0, 
     hyb = 1 if spec["integrator"] in ("mercurius", "trace") else 0
     if nactive is None:
         nactive = -1 if spec.get("n_active") is None else spec["n_active"]
-    toks = ["F", mode, str(spec["ks"]), str(int(tree)), str(hyb),
+    ks_eff = 0 if (KSFALLBACK[0] and tree and not hyb) else spec["ks"]
+    toks = ["F", mode, str(ks_eff), str(int(tree)), str(hyb),
             str(nactive), str(nvar), str(spec["seed"])] + VARIANT + [d2h(dtl), d2h(t)]
     if res[0] == "script":
         toks += ["script", str(res[1])]
@@ -1149,7 +1162,9 @@ def scenario(c, W, exe_lines, spec, tag, stats):
     stats["calls"] += len(B["calls"])
     callsB = [(p1, p2, gbhex(g), ha, hb, out) for (p1, p2, g, ha, hb, out, _) in B["calls"]]
     removed_any = any(o & 3 for (_, _, _, _, _, o) in callsB)
-    path = ("sorted" if (spec["ks"] or spec["integrator"] in ("mercurius", "trace")) else "unsorted") + ("+tree" if B["tree"] else "")
+    hyb_ = spec["integrator"] in ("mercurius", "trace")
+    ks_eff = 0 if (KSFALLBACK[0] and B["tree"] and not hyb_) else spec["ks"]
+    path = ("sorted" if (ks_eff or hyb_) else "unsorted") + ("+tree" if B["tree"] else "")
     if removed_any:
         stats["paths"][path] = stats["paths"].get(path, 0) + 1
     c.count(("fixup", path, kind, min(len(callsB), 10), min(n, 10)), nontrivial=(len(reported) >= 3 and removed_any))
@@ -1369,7 +1384,14 @@ def sums(state):
 
 def check_merge(c, spec, stateA, B, path, stats):
     if path == "sorted+tree":
-        return      # refused configuration (error reported by reb_simulation_remove_particle): see K_F4
+        # refused configuration: reb_simulation_remove_particle reports an error and returns 0 — but the merge resolver
+        # has already moved the absorbed body's mass into the survivor, so the pair's mass is in the array twice
+        if any(r is not None and r[3] in (1, 2) for r in B["hsrec"]):
+            M0 = math.fsum(p[7] for p in stateA); M1 = math.fsum(p[7] for p in B["state"] if p[2] == p[2])
+            if len(B["state"]) == len(stateA) and M1 > M0 * (1 + 1e-12):
+                c.violation(K_N4, "keep_sorted=1 with a tree and the merge resolver: removal refused after the merge was applied, total mass %r -> %r with N unchanged" % (M0, M1),
+                            dict(spec=spec))
+        return
     nm = 0
     seen = set()
     for rec, call in zip(B["hsrec"], B["calls"]):
@@ -2169,6 +2191,7 @@ def run(c):
         c.broken.append("extraction: reb_simulation_remove_particle no longer has the structure the model mirrors: " + "; ".join(problems))
     VARIANT[:] = [str(flags[k]) for k in VARIANT_NAMES] + [str(flags["treePurgeAtEnd"]), str(flags["treeUpdateClampsNActive"])]
     PURGE[0] = bool(flags["treePurgeAtEnd"])
+    KSFALLBACK[0] = bool(flags["keepSortedTreeFallback"])
     RESFLAGS.update(merge=str(flags["mergeMasslessMidpoint"]), hs=str(flags["hsMasslessEqual"]))
     if sflags is not None:
         sflags = dict(sflags, mergeMasslessMidpoint=flags["mergeMasslessMidpoint"], hsMasslessEqual=flags["hsMasslessEqual"])
